@@ -169,7 +169,7 @@ func recvLabels(c RecvCase, st *recvStats) []string {
 }
 
 func checkRecv(rt pbt.TB, c RecvCase) {
-	st, err := runRecv(c)
+	st, err := pbt.Safe(runRecv, c)
 	if st == nil {
 		st = &recvStats{}
 	}
